@@ -11,7 +11,7 @@ import json, os, re, subprocess, sys
 
 ROOT = "/verif/seeded"
 # further checks worth running against a seed (same code, other property)
-EXTRA = {"C30": ["C26"], "C13": ["C02"], "C02": ["C13"], "C28": ["C15"], "C15": ["C28"]}
+EXTRA = {"C11b": ["C12", "C13"], "C13b": ["C02"], "C03b": ["C06", "C11"], "C07b": ["C05"], "C10b": ["C14"], "C30": ["C26"], "C13": ["C02"], "C02": ["C13"], "C28": ["C15"], "C15": ["C28"]}
 # tier in which the seed's own check is expected to report (default quick)
 TIER = {}
 
@@ -40,7 +40,7 @@ def main():
         title = notes.split("\n", 1)[0].lstrip("# ").strip()
         files = re.findall(r"^\+\+\+ b/(\S+)", open(os.path.join(d, "patch.diff")).read(), re.M)
         meta.update({
-            "property_id": i,
+            "property_id": re.match(r"C\d+", i).group(0),
             "title": title,
             "files_changed": files,
             "breaks": section(notes, "Which part of the property")[:1500],
@@ -61,8 +61,9 @@ def main():
                 subprocess.run(["git", "-C", "/repo", "apply", os.path.join(d, "patch.diff")], check=True)
                 res = {}
                 try:
-                    for c in [i] + EXTRA.get(i, []):
-                        tier = TIER.get(i, "quick") if c == i else "quick"
+                    own = re.match(r"C\d+", i).group(0)
+                    for c in [own] + EXTRA.get(i, []):
+                        tier = TIER.get(i, "quick") if c == own else "quick"
                         p = subprocess.run(["/verif/check", c, tier], capture_output=True, text=True)
                         fl = [l for l in p.stdout.splitlines() if l.startswith("FAILURE")]
                         res[f"{c} {tier}"] = {"exit": p.returncode, "caught": p.returncode == 1, "first_failure": fl[0][:400] if fl else ""}
